@@ -121,8 +121,78 @@ def excluded_calls():
             ('make_sequence', '1', {'version': 41}, 'version outside M1-M4/1-40'),
             ('make_sequence', '12345', {'symbol_count': 0}, 'symbol_count outside 1-16'),
             ('make_sequence', '12345' * 5, {'symbol_count': 17}, 'symbol_count outside 1-16'),
-            ('make_sequence', '12345', {'symbol_count': -1}, 'symbol_count outside 1-16')]
+            ('make_sequence', '12345', {'symbol_count': -1}, 'symbol_count outside 1-16'),
+            ('make_sequence', '12345' * 5, {'symbol_count': 17, 'version': 1}, 'symbol_count outside 1-16'),
+            ('make_sequence', '12345' * 5, {'symbol_count': 0, 'version': '2'}, 'symbol_count outside 1-16'),
+            ('make_sequence', '12345' * 5, {'symbol_count': -1, 'version': 3}, 'symbol_count outside 1-16'),
+            ('make_sequence', '12345' * 5, {'symbol_count': 100, 'version': 40}, 'symbol_count outside 1-16')]
     return out
+
+
+def _norm_version(v):
+    """/verif's reading of the documented version domain: returns int 1..40, 'M1'..'M4', None (not given) or 'invalid'."""
+    if v is None:
+        return None
+    if isinstance(v, bool):
+        return 'unknown'
+    try:
+        n = int(v)
+        return n if 1 <= n <= 40 else 'invalid'
+    except (ValueError, TypeError):
+        pass
+    if isinstance(v, str) and v.upper() in ('M1', 'M2', 'M3', 'M4'):
+        return v.upper()
+    return 'invalid'
+
+
+def must_refuse(fn, kw):
+    """Reason why the documentation excludes this call whatever the content is, or None."""
+    v = _norm_version(kw.get('version'))
+    if v == 'unknown':
+        return None
+    if v == 'invalid':
+        return 'version outside M1-M4/1-40'
+    micro_v = isinstance(v, str)
+    micro = micro_v or fn == 'make_micro' or kw.get('micro') is True
+    sc_ = kw.get('symbol_count')
+    if fn == 'make_sequence':
+        if sc_ is not None and not isinstance(sc_, bool) and not 1 <= sc_ <= 16:
+            return 'symbol_count outside 1-16'
+        if micro_v:
+            return 'Structured Append with Micro QR'
+    if fn == 'make_qr' and micro_v:
+        return 'Micro version in make_qr'
+    if fn == 'make_micro' and isinstance(v, int):
+        return 'QR version in make_micro'
+    if fn == 'make' and kw.get('micro') is True and isinstance(v, int):
+        return 'QR version with micro=True'
+    if fn == 'make' and kw.get('micro') is False and micro_v:
+        return 'Micro version with micro=False'
+    m = kw.get('mask')
+    if m is not None and not isinstance(m, bool):
+        try:
+            mi = int(m)
+        except (ValueError, TypeError):
+            return 'mask is not a number'
+        if not 0 <= mi <= 7 or (micro and mi > 3):
+            return 'mask out of range'
+    e = kw.get('error')
+    if isinstance(e, str) and e.upper() == 'H' and micro:
+        return 'level H with Micro QR'
+    if isinstance(e, str) and e.upper() not in ('L', 'M', 'Q', 'H'):
+        return 'unknown error level'
+    if kw.get('eci') is True and micro:
+        return 'ECI with Micro QR'
+    mode = kw.get('mode')
+    if isinstance(mode, str):
+        mo = mode.lower()
+        if mo not in ('numeric', 'alphanumeric', 'byte', 'kanji', 'hanzi'):
+            return 'unknown mode'
+        if mo == 'hanzi' and micro:
+            return 'hanzi with Micro QR'
+        if micro_v and ((v == 'M1' and mo != 'numeric') or (v == 'M2' and mo not in ('numeric', 'alphanumeric'))):
+            return 'mode not available in version'
+    return None
 
 
 SPELLINGS = [
@@ -386,6 +456,9 @@ def _exec_calls(segno, sc, res, viols, counters):
             if known_codec:
                 viols.append(_viol('c14.exc', '%s(..., %s) raised LookupError although the codec exists: %s' % (c['fn'], _kwstr(kw), val[:100]), call=ci))
         elif st == 'ok':
+            why = must_refuse(c['fn'], kw)
+            if why is not None:
+                viols.append(_viol('c14.excluded', '%s(%r, %s) [%s] was not refused' % (c['fn'], content if len(repr(content)) < 50 else '<%d>' % len(content), _kwstr(kw), why), call=ci))
             syms = val if isinstance(val, tuple) else (val,)
             for q in syms[:4]:
                 if len(q.matrix) > 80:
